@@ -142,7 +142,7 @@ TraceNameDecode ==
   /\ Ev.ev = "NameDecode"
   /\ Len(Ev.at) = Len(Ev.r)
   /\ \A i \in 1 .. Len(Ev.at) :
-       /\ Rule(l, "NoPanic", Ev.r[i][1] # "panic", <<"parse_name", Ev.at[i], Ev.r[i]>>)
+       /\ Rule(l, "NameNoPanic", Ev.r[i][1] # "panic", <<"parse_name", Ev.at[i], Ev.r[i]>>)
        /\ Rule(l, "NameRef", NameDecodeOK(Ev.b, Ev.at[i], Ev.r[i]),
                <<"at", Ev.at[i], "got", Ev.r[i], "ref", RefDecodeName(Ev.b, Ev.at[i])>>)
        /\ Rule(l, "NameMustErr", NameMustErrOK(Ev.b, Ev.at[i], Ev.r[i]),
@@ -214,6 +214,24 @@ TraceParse ==
              (ref.ok /\ ref.exact /\ ref.end = Len(b) /\ InCrateDomain(ref) /\ PlainReencode(b, ref) = b)
                => out[1] = "ok",
              <<"canonical-plain-message-rejected", out>>)
+     \* C05, observed at the entry loop itself (hook at the top of Question::parse / ResourceRecord::parse):
+     \* every entry the parser starts on begins where the envelope walker says an entry begins -- never in
+     \* the middle of the previous record, whatever the outcome of the parse
+     /\ IF "starts" \in DOMAIN Ev THEN
+          LET es == EnvelopeStarts(b) IN
+          Rule(l, "EntryAligned",
+               Len(Ev.starts) <= Len(es) /\ \A i \in 1 .. Len(Ev.starts) : i <= Len(es) => Ev.starts[i] = es[i],
+               <<"entries-started-at", Ev.starts, "envelope", es>>)
+        ELSE TRUE
+     \* C06 ("parsing of the enclosing element resumes immediately after the name's in-place bytes"), observed
+     \* at Name::parse itself (hook at its top): on a message the reference decoder accepts, the names the
+     \* parser starts on begin, in order, exactly where the schema-aware site walker finds the message's names
+     /\ IF "nstarts" \in DOMAIN Ev /\ ref.ok THEN
+          LET ss == Sites(b) IN
+          Rule(l, "NameSiteAligned",
+               Len(Ev.nstarts) <= Len(ss) /\ \A i \in 1 .. Len(Ev.nstarts) : i <= Len(ss) => Ev.nstarts[i] = ss[i].pos,
+               <<"names-started-at", Ev.nstarts, "sites", [i \in 1 .. Len(ss) |-> ss[i].pos]>>)
+        ELSE TRUE
 
 (* RoundTrip: a packet e.pkt assembled through the public constructors was     *)
 (* serialised plain (e.plain) and compressed (e.comp) and both were parsed     *)
@@ -474,9 +492,16 @@ TraceApi ==
      \* C08 after every call of the history (a packet that came from the parser and was then edited included):
      \* what the real packet serialises to starts with the id and the flag word of the model's state
      /\ \A i \in 1 .. Len(Ev.wire) :
-          LET m == model[i] IN
+          LET m == model[i]
+              \* C08 speaks of named opcodes and response codes: where the model's state holds a received code
+              \* the library has no name for (observed as -1; what is written for it is C11's business) those
+              \* four bits are left out of the comparison
+              opMask == IF m.opcode = -1 THEN 30720 ELSE 0         \* 0x7800
+              rcMask == IF m.rcode = -1 THEN 15 ELSE 0
+              Clear(w) == w - (((w \div 2048) % 16) * 2048) * (IF opMask = 0 THEN 0 ELSE 1) - (w % 16) * (IF rcMask = 0 THEN 0 ELSE 1)
+              want == FlagWord({n \in FlagNames : Bit(m.fs, FlagBit(n))}, IF m.opcode = -1 THEN 0 ELSE m.opcode, IF m.rcode = -1 THEN 0 ELSE m.rcode % 16) IN
           Rule(l, "HdrFields",
-               Len(Ev.wire[i]) = 4 => Ev.wire[i] = BE16(m.id) \o BE16(FlagWord({n \in FlagNames : Bit(m.fs, FlagBit(n))}, m.opcode, m.rcode % 16)),
+               Len(Ev.wire[i]) = 4 => (SubSeq(Ev.wire[i], 1, 2) = BE16(m.id) /\ Clear(Ev.wire[i][3] * 256 + Ev.wire[i][4]) = want),
                <<"header-written-after-call", i, Ev.hist[i].op, Ev.wire[i], "id", m.id, "fs", m.fs, "opcode", m.opcode, "rcode", m.rcode>>)
      \* C02 on the packet the history built (wire-representable: every state of the builder machine is):
      \* parse(build(p)) = p, p being the real packet's own projection after the last call
